@@ -385,8 +385,39 @@ int main(int argc, char ** argv) {
                 else if (k == "clamp" || k == "backup") { for (auto & x : l["cfg"]) x = rl(); }
             }
             std::size_t tid = c["tid"].get<std::size_t>();
+            // every fifth instance of a row-major catalogue type is scaled up beyond 1024 cells (block-wise writers / readers,
+            // payloads larger than a stream buffer); it is then written to and read from a real FILE
+            bool big = false;
+            if ((q % 5) == 4) {
+                for (std::size_t i = 0; i + 1 < layers.size(); ++i)
+                    if (layers[i]["k"] == "strided" && layers[i + 1]["k"] == "array" && !big) {
+                        std::size_t n = layers[i]["n"].get<std::size_t>(), m = layers[i + 1]["m"].get<std::size_t>(), w = layers[i + 1]["w"].get<std::size_t>();
+                        std::vector<std::size_t> ext(n); std::size_t prod = 1;
+                        for (auto & x : ext) { x = 2 + r.below(n == 1 ? 2500 : (n == 2 ? 50 : 13)); prod *= x; }
+                        if (prod < 1100) { ext[0] += 1100 / (prod / ext[0]) + 1; prod = 1; for (auto x : ext) prod *= x; }
+                        json cfgl = json::array(); for (auto x : ext) { cfgl.push_back(x % 65536); cfgl.push_back(x / 65536); cfgl.push_back(0); cfgl.push_back(0); }
+                        layers[i]["cfg"] = cfgl;
+                        json data = json::array();
+                        for (std::size_t k = 0; k < prod * m; ++k) { json sc = json::array(); for (std::size_t l = 0; l < w; ++l) sc.push_back(rl()); data.push_back(sc); }
+                        layers[i + 1]["data"] = data; layers[i + 1]["count"] = prod;
+                        big = true;
+                    }
+            }
             std::string bytes = dump_of(tid, layers);
             json loaded = json::array(); int rc = try_load(tid, bytes, 0, &loaded);   // (stays [] when the load throws: TLC cannot read null)
+            if (big) {   // the same through std::ofstream / std::ifstream
+                std::string fn = std::string(argv[5]) + ".field";
+                dispatch(tid, [&](auto tag) {
+                    using B = typename decltype(tag)::type;
+                    { auto f = build<B>(layers); std::ofstream os(fn, std::ios::binary); f.dump(os); }
+                    std::ifstream in(fn, std::ios::binary); std::stringstream ss; ss << in.rdbuf();
+                    ++g_checks; if (ss.str() != bytes) mismatch("io/file-dump-bytes/type" + std::to_string(tid), {{"type", tid}});
+                    try { std::ifstream is(fn, std::ios::binary); covfie::field<B> f2(is); json l2 = json::array(); extract<B>(f2.backend(), l2);
+                          ++g_checks; if (l2 != loaded) mismatch("io/file-load-differs/type" + std::to_string(tid), {{"type", tid}, {"bytes", bytes.size()}}); }
+                    catch (const std::exception & e) { ++g_checks; mismatch("io/file-load-threw/type" + std::to_string(tid), {{"type", tid}, {"bytes", bytes.size()}, {"what", e.what()}}); }
+                });
+                std::remove(fn.c_str());
+            }
             out << json({{"e", "dump"}, {"tid", tid}, {"limbs", to_limbs(bytes.data(), bytes.size())}, {"odd", bytes.size() % 2}, {"layers", layers},
                          {"reload_rc", rc}, {"reloaded", loaded}}).dump() << "\n";
             ++g_cases;
